@@ -370,7 +370,8 @@ func (n *jnode) clone() *jnode {
 }
 
 var jsonSpecials = []string{"null", `""`, "[]", "{}", "0", "-1", "1e999", "18446744073709551616", "-9223372036854775809", "1.5", "true", "false",
-	`"AAAA"`, `"!!!"`, `"\u0000"`, `[null]`, `[[]]`, `{"a":null}`, `[1,2,3]`, `"` + strings.Repeat("A", 100) + `"`, `{"measurement-value":null}`, `[{}]`, `[null,null]`}
+	`"AAAA"`, `"!!!"`, `"\u0000"`, `[null]`, `[[]]`, `{"a":null}`, `[1,2,3]`, `"` + strings.Repeat("A", 100) + `"`, `{"measurement-value":null}`, `[{}]`, `[null,null]`,
+	`"` + strings.Repeat("é", 33) + `"`, `"` + strings.Repeat("証", 22) + `"`, `"` + strings.Repeat("x", 63) + `é"`, `"http://example.com/` + strings.Repeat("ü", 40) + `"`, `"` + strings.Repeat("é", 128) + `"`}
 
 // mutateJSON applies k random structural edits and returns their classes.
 func mutateJSON(g *model.Gen, root *jnode, k int) string {
